@@ -226,6 +226,43 @@ pub fn run_case(case: &Case) -> Result<(bool, Vec<&'static str>), Failure> {
             labels.push("node-filter-removes-some");
         }
 
+        // 3b. filter_nodes with a predicate that has state (an FnMut): decisions are taken by call position, each node
+        //     is to be asked exactly once, and the view has to follow exactly the answers that were given
+        {
+            let mut st = sim.topology();
+            let mut asked: Vec<String> = Vec::new();
+            let mut chosen: Vec<String> = Vec::new();
+            let mut k = 0u32;
+            st.filter_nodes(|node| {
+                let p = node.module().path().as_str().to_string();
+                let keep = case.keep_edges >> (k % 32) & 1 == 1;
+                k += 1;
+                asked.push(p.clone());
+                if keep {
+                    chosen.push(p);
+                }
+                keep
+            });
+            let mut asked_sorted = asked.clone();
+            asked_sorted.sort();
+            asked_sorted.dedup();
+            vensure!(
+                asked.len() == n && asked_sorted.len() == n,
+                "filter-nodes-node-set",
+                "filter_nodes consulted its predicate {} times for {n} nodes (asked: {:?})",
+                asked.len(),
+                asked
+            );
+            chosen.sort();
+            vensure!(node_paths(&st) == chosen, "filter-nodes-node-set", "filter_nodes with a counting predicate kept {:?}, the predicate said yes to {:?}", node_paths(&st), chosen);
+            let want: Vec<E> = model.iter().filter(|e| chosen.contains(&e.0) && chosen.contains(&e.2)).cloned().collect();
+            let got = match catch(|| edges_of(&st, "after filter_nodes (stateful predicate)")) {
+                Ok(r) => r?,
+                Err((msg, loc)) => vfail!("filter-nodes-edge-index", "iterating edges after filter_nodes panicked: {msg} @ {loc}"),
+            };
+            vensure!(got == want, "filter-nodes-edge-set", "after filter_nodes with a counting predicate: edges {:?}\nexpected the edges among the kept nodes {:?}", got, want);
+        }
+
         // 4. filter_edges + bidirectional
         let mut et = sim.topology();
         let mut k = 0u32;
@@ -331,7 +368,7 @@ impl Prop for C19 {
          on arbitrary modules (1..16 hops), multi-edges, isolated modules, unconnected gates and gate clusters; generated root, source, node keep-mask \
          and edge keep-mask. Oracle from the generator's own description: global view node set and edge multiset (from module, from gate, to module, \
          to gate) with the edge's target node owning its target gate; spanned(root) = reachable set + the same edge rule; connected == own BFS; \
-         filter_nodes == induced subgraph; filter_edges + bidirectional (asserted where gate-level and node-level readings agree); dijkstra: keys == \
+         filter_nodes == induced subgraph (pure predicate, and a predicate that decides by call position: asked once per node, view follows the answers given); filter_edges + bidirectional (asserted where gate-level and node-level readings agree); dijkstra: keys == \
          reachable minus source, each value an edge leaving the source whose head is one hop closer (own BFS distances). Non-trivial iff the spanned \
          root has >= 2 frontier nodes, or a dijkstra target lies >= 2 hops away, or a multi-edge exists."
             .into()
